@@ -41,9 +41,10 @@ IndexOf(s, d) == LET idx == {i \in 1..Len(s) : s[i] = d} IN IF idx = {} THEN 0 E
    [property: "comments removed"]; every element boundary carries the text that precedes it
    (pre) and the white-space mode of that text, computed from the ancestor stack. *)
 (* text directly inside select/optgroup is inter-element white space by the content model (4.10.7,
-   4.10.9) and is never rendered by the widget, also inside pre *)
+   4.10.9) and is never rendered by the widget, also inside pre; the label of an option is its text
+   with white space stripped and collapsed (4.10.10 option.text / label), whatever white-space says *)
 Mode(stack) ==
-  IF stack # <<>> /\ stack[Len(stack)] \in {"select", "optgroup"} THEN "norm"
+  IF stack # <<>> /\ stack[Len(stack)] \in {"select", "optgroup", "option"} THEN "norm"
   ELSE IF \E i \in 1..Len(stack) : stack[i] \in PreEls /\ \A k \in (i + 1)..Len(stack) : stack[k] # "template"
        THEN "pre"      \* (template contents are a separate fragment, 4.12.3: ancestors beyond a template do not style them)
   ELSE IF stack # <<>> /\ stack[Len(stack)] \in RawTextEls THEN "raw"
